@@ -181,6 +181,7 @@ fn c02_profiles() -> Vec<(&'static str, Profile, u32, u32)> {
     p.k_gen = 7;
     p.k_exec = 2;
     p.o_exec = 5;
+    p.o_wakeup = 2;
     p.o_async = 3;
     p.o_cause = 16;
     p.o_insert = 8;
